@@ -34,6 +34,13 @@ def balanced_ranges(lines):
 def _ref_for(rng, k, includer_url):
     # (a resource is what its content says, whatever its name ends in;
     # brackets and asterisks in a name are characters of the name)
+    base = includer_url.rsplit("/", 1)[-1]
+    if rng.random() < 0.04 and base.swapcase() != base and not (
+            set(base) & set("%$[]*?#~")):
+        # a fragment whose URL differs from its includer's only in letter
+        # case: another resource (URLs and the names behind them are
+        # case-sensitive), so this is not a recursive inclusion
+        return base.swapcase()
     stem = rng.choice(["frag%d"] * 12 + ["fr[%d]", "fr*%d", "f[a-z]%d",
                                          "fr%d$$x", "$$fr%d"])
     name = (stem + "%s") % (k, rng.choice([".conf"] * 9 + [
